@@ -212,6 +212,7 @@ type connEnd struct {
 	local, remote     simAddr
 	closeOnce         sync.Once
 	preemptibleWrites bool          // server end of a WebSocket connection
+	writeDelay        time.Duration // server end: every write call takes that long (slow link)
 	closedAt          time.Duration // virtual instant at which this end was closed by its owner
 	isClosed          bool
 }
@@ -221,6 +222,10 @@ func (e *connEnd) Read(b []byte) (int, error) {
 	return n, err
 }
 func (e *connEnd) Write(b []byte) (int, error) {
+	if e.writeDelay > 0 && simrt.IsTask() {
+		// a slow link: the write call takes its time, the writer sits in it meanwhile
+		simrt.Sleep(e.writeDelay)
+	}
 	n, err := e.out.write(b)
 	// a write to a connection is a system call: the writer can be pre-empted in it (whoever else writes to the same
 	// connection meanwhile finds it in the middle of a write)
